@@ -426,3 +426,47 @@ Theorem stream_results_bounded b limit ops obs s1 x s2 :
 Proof.
   intros U R. split; [exact (stream_bytes_bounded b limit ops obs s1 x s2 U R) | exact (stream_raw_bounded b limit ops obs s1 x s2 U R)].
 Qed.
+
+(* ---------- header errors are sticky ---------- *)
+(* Once Kind has reported an error other than EOL, the stream is in a state where Kind, Bytes, Raw, Uint,
+   Bool and List all report that same error and leave the state (reader position included) unchanged, for
+   as long as nothing re-arms it (only ListEnd does, in this API). A Decoder that drops the error of a
+   Kind() call therefore cannot make progress past a bad header. *)
+Lemma s_kind_err_state s e s1 : s_kind s = (SErr e, s1) -> e <> SEOL ->
+  exists k, skind s1 = Some k /\ kinderr s1 = Some e.
+Proof.
+  unfold s_kind. destruct (skind s) as [k|] eqn:Ek.
+  - destruct (kinderr s) as [e0|] eqn:Ee; intro E; inversion E; subst. intros _. exists k. auto.
+  - cbn [set_kind3 stack]. destruct (stack s) as [|[p z] rr].
+    + destruct (read_kind_s _) as [[[k n] e0] s2]. destruct e0 as [e0|].
+      * intro E; inversion E; subst. intros _. exists k. cbn. auto.
+      * destruct (limited s2 && (remaining s2 <? n)); intro E; inversion E; subst. intros _. exists k. cbn. auto.
+    + destruct (p =? z); [intro E; inversion E; subst; congruence|].
+      destruct (read_kind_s _) as [[[k n] e0] s2]. destruct e0 as [e0|].
+      * intro E; inversion E; subst. intros _. exists k. cbn. auto.
+      * destruct (stack s2) as [|[p1 z1] r1]; [intro E; inversion E|].
+        destruct (z1 - p1 <? n); intro E; inversion E; subst. intros _. exists k. cbn. auto.
+Qed.
+
+Lemma sticky_kind s k e : skind s = Some k -> kinderr s = Some e -> s_kind s = (SErr e, s).
+Proof. intros K E. unfold s_kind. rewrite K, E. reflexivity. Qed.
+
+Definition asks_kind (o : op) : bool := match o with OListEnd => false | _ => true end.
+
+Lemma sticky_step s k e o : skind s = Some k -> kinderr s = Some e -> asks_kind o = true ->
+  step o s = (BErr (serr_code e), s).
+Proof.
+  intros K E A. pose proof (sticky_kind s k e K E) as SK.
+  destruct o; try discriminate; cbn [step]; unfold s_bytes_op, s_raw_op, s_uint_op, s_bool_op, s_uint_op, s_list_op;
+    rewrite ?SK; reflexivity.
+Qed.
+
+Theorem stream_error_sticky s e s1 ops :
+  s_kind s = (SErr e, s1) -> e <> SEOL -> forallb asks_kind ops = true ->
+  run ops s1 = (map (fun _ => BErr (serr_code e)) ops, s1).
+Proof.
+  intros K Ne. destruct (s_kind_err_state s e s1 K Ne) as (k & Hk & He).
+  induction ops as [|o r IH]; intro A; [reflexivity|].
+  cbn [forallb] in A. apply andb_true_iff in A as [A1 A2].
+  cbn [run map]. rewrite (sticky_step s1 k e o Hk He A1). rewrite (IH A2). reflexivity.
+Qed.
